@@ -77,12 +77,18 @@ def run_driver(binary, test, env=None, timeout=3600, cwd=None, ok_rc=(0,)):
     e.update({k: str(v) for k, v in (env or {}).items()})
     e.setdefault("VERIF_SEED", str(seed()))
     t0 = time.time()
+    # everything the driver (and its worker processes) puts into its temporary directory - embedded etcd data, recovery
+    # logs - is removed with it, however the driver ends
+    tmpd = scratch("verif-drv-")
+    e["TMPDIR"] = tmpd
     try:
         p = subprocess.run([binary, "-test.run", "^" + test + "$", "-test.v", "-test.timeout", "%ds" % timeout],
                            cwd=cwd or os.path.dirname(binary), env=e, stdout=subprocess.PIPE,
                            stderr=subprocess.STDOUT, text=True, timeout=timeout + 60, errors="replace")
     except subprocess.TimeoutExpired:
         raise Broken("driver %s timed out" % test)
+    finally:
+        shutil.rmtree(tmpd, ignore_errors=True)
     out = p.stdout
     if p.returncode not in ok_rc or ("--- PASS: " + test) not in out:
         tail = "\n".join([ln for ln in out.splitlines() if not ln.startswith("    ") or "verif" in ln][-60:])
